@@ -16,6 +16,15 @@ its own, through the library's public declaration mechanism (MemoryBank / Memory
 NumericValue / StringValue): non-contiguous, descending and scattered locations, which the API allows
 ("most efficient if contiguous") and the shipped map does not exercise.
 
+A generated family of a program's own declarations (harness.ref_memory.family(seed): 16 banks with / without lock and
+latch byte, ~190 values; base classes NumericValue / FixedScaleNumericValue (signed too) / TemperatureValue / StringValue /
+BinaryValue / VersionNumberValue / energy.ScaledNumericValue; derived from the abstract base, from a shipped value (CRI,
+InputPowerNominal, ...) or from another value of the family with another width / signedness / limits / MASK-TMASK support;
+1..12 locations ascending, descending, with gaps, scattered, up to 0xFE; every access type, no type given, mixed types;
+default / reset given or not; MemoryRange / tuple / list / single MemoryLocation) goes through the same single-value and
+whole-bank judges: bank objects "F<seed>B<nn>", keys "F<seed>B<nn>.V<seed>_<nnn>".  What each value means is fixed by the
+reference (family_row), never by the library.
+
 Sequences in flight at the same time: two or three read sequences (MemoryBank.read_all of one bank object, with and
 without latch, and single-value reads of that bank), each on its own bus with its own units, are advanced alternately
 command by command (harness.bus.run_interleaved) - what two drivers in one process do.  Each must pass the
@@ -80,8 +89,19 @@ RULE = ("single value: (value class, addressing kind, image, last accessible loc
         "is_locked of a value: value x lock byte x last locations around the value x header holes) is judged; the "
         "use_latch option of any whole-bank read may be handed over as a truthy / falsy object that is not a bool "
         "(11 styles); whole banks whose locations from 3 up to the last accessible one are all (or all but one) "
-        "unimplemented")
+        "unimplemented; declared by a program: every value of the generated family of the run's seed (declaration features: "
+        "base class / derivation, signedness, flags, limits, width, location order, access types incl. none and mixed, bank "
+        "flags) x last accessible location at and below each of its locations, 0, 1, 2, 0xfe x single holes x images x "
+        "byte-position boundary patterns / text images x fault at every read index; each family bank x last location at and "
+        "below every declared location x latch x single holes x faults; plus Hypothesis tuples over the family")
 ASSUMPTIONS = [
+    "a program's own declarations (the generated family, harness/ref_memory.py family()) use only the public declaration "
+    "mechanism the way dali/memory/*.py do; a class attribute the declaration does not set is the parent's, the bytes are "
+    "taken from the locations in the declared order, a location declared without type_ is readable like any other; only "
+    "combinations whose meaning the statement / the library's documentation settles are generated (no signed temperature / "
+    "version / scaled values, one-byte booleans, one- or two-byte versions, no value at locations 0x00..0x02); the shipped "
+    "value a family value is derived from is decoded once before the derived class is declared (order parent-first) or only "
+    "after the derived class was used (child-first, as far as this process had not used it before)",
     "bus units follow harness/model_gear.py / model_devmem.py: READ MEMORY LOCATION answers NO above the last accessible "
     "location and at unimplemented locations, advances DTR0 either way, and clears writeEnableState (IEC 62386-102 "
     "9.10; dali/tests/fakes.py models the same)",
@@ -238,7 +258,7 @@ def bankspec(bankobj):
     key = ("spec", bankobj)
     if key in _CACHE:
         return _CACHE[key]
-    b = SYN_BANK if bankobj == "SYN" else RM.BANKS[bankobj]
+    b = SYN_BANK if bankobj == "SYN" else RM.BANKS[bankobj] if bankobj in RM.BANKS else _family_bank(bankobj)
     rows = sorted((r for r in all_rows().values() if r["bankobj"] == bankobj), key=lambda r: r["first"])
     writable, lockable = set(), set()
     for r in rows:
@@ -302,6 +322,121 @@ def lib():
     return L
 
 
+# ------------------------------------------------- a program's own declarations ----
+def _family_bank(bankobj):
+    seed = RM.family_of_key(bankobj)
+    if seed is None:
+        raise KeyError(bankobj)
+    return RM.family(seed)["banks"][bankobj]
+
+
+def _touch(cls, row):
+    """Decode one plain byte string with cls (what a program does when it uses a class for the first time)."""
+    try:
+        raw = [0x00] * (row["width"] - 1) + [0x01]
+        img = [0] * NLOC
+        for a, b in zip(row["locs"] if "locs" in row else range(row["first"], row["last"] + 1), raw):
+            img[a] = b
+        cls.from_list(img)
+        cls.check_raw(bytes(raw))
+    except Exception:  # noqa: judged where the class is read, not here
+        pass
+
+
+def load_family(seed):
+    """Declare the generated family of `seed` (once per process) and enter it into all_rows() / lib().
+    -> {"banks": [bank object names], "keys": [value keys], "errors": {key: text}}"""
+    ck = ("family", int(seed))
+    if ck in _CACHE:
+        return _CACHE[ck]
+    L = lib()
+    rows = all_rows()
+    fam = RM.family(seed)
+    location = L["location"]
+    errors = {}
+    abstract = {}
+    for name in RM.ABSTRACT_BASES:
+        try:
+            if name == "ScaledNumericValue":
+                from dali.memory import energy
+                abstract[name] = energy.ScaledNumericValue
+            else:
+                abstract[name] = getattr(location, name)
+        except Exception as e:  # noqa
+            errors["base:" + name] = repr(e)
+    banks = {}
+    for bk, b in fam["banks"].items():
+        try:
+            banks[bk] = RM.declare_bank(b, location)
+        except Exception as e:  # noqa
+            errors[bk] = "MemoryBank(%d, %#x, has_lock=%s, has_latch=%s) raised %r" % (b["bank"], b["last"], b["has_lock"], b["has_latch"], e)
+            continue
+        for cls, loc in (("LastAddress", 0), ("LockByte", 2)):
+            if loc == 2 and not (b["has_lock"] or b["has_latch"]):
+                continue
+            rows["%s.%s" % (bk, cls)] = dict(
+                key="%s.%s" % (bk, cls), cls=cls, module="dali.memory.location", bankobj=bk, bank=b["bank"], first=loc, last=loc,
+                width=1, locs=[loc], memtype=("ROM" if loc == 0 else "RAM_RW",), kind="uint", signed=False, mask=False,
+                tmask=False, min=None, max=None, exp10=None, trust="independent", pinned_fields=())
+    keys = []
+    for d in fam["decls"]:
+        key = "%s.%s" % (d["bankobj"], d["name"])
+        rows[key] = fam["rows"][key]
+        keys.append(key)
+        if d["bankobj"] not in banks:
+            continue
+        kind, ref = d["parent"]
+        parent = abstract.get(ref) if kind == "abstract" else L["classes"].get(ref)
+        if parent is None:
+            errors.setdefault(key, "the parent %s does not exist" % ref)
+            continue
+        try:
+            if kind != "abstract" and d["order"] == "parent-first":
+                _touch(parent, rows[ref])
+            cls = RM.declare_value(d, banks[d["bankobj"]], parent, location)
+        except Exception as e:  # noqa: reported by the family shard
+            errors[key] = "declaring %s(%s) at %s raised %r" % (d["name"], ref, ["%#04x %s" % lt for lt in zip(d["locs"], d["types"])], e)
+            continue
+        L["classes"][key] = cls
+        L["cls_key"][cls] = key
+        if kind == "abstract" or d["order"] == "child-first":
+            _touch(cls, rows[key])
+    for bk, bank in banks.items():
+        L["banks"][bk] = bank
+        for name in ("LastAddress", "LockByte"):
+            cls = getattr(bank, name, None)
+            if cls is not None and "%s.%s" % (bk, name) in rows:
+                L["classes"]["%s.%s" % (bk, name)] = cls
+                L["cls_key"][cls] = "%s.%s" % (bk, name)
+    for k in [k for k in _CACHE if isinstance(k, tuple) and k[0] == "spec" and k[1] in fam["banks"]]:
+        del _CACHE[k]
+    _CACHE[ck] = dict(banks=sorted(banks), keys=keys, errors=errors, fam=fam)
+    return _CACHE[ck]
+
+
+def ensure_family(case):
+    """Declare the families that the keys / bank objects named in a case belong to (replays name them only)."""
+    if not isinstance(case, dict):
+        return
+    for f in ("key", "bank"):
+        v = case.get(f)
+        if isinstance(v, str):
+            seed = RM.family_of_key(v)
+            if seed is not None:
+                load_family(seed)
+    for f in ("jobs", "ops"):
+        for sub in case.get(f) or ():
+            ensure_family(sub)
+
+
+def signame(row):
+    """Name of a value class in a violation signature: the class, or - for the generated family, whose class names change
+    with the seed - what kind of declaration it is."""
+    if RM.family_of_key(row["key"]) is None:
+        return row["cls"]
+    return "declared-by-program:%s%s" % (row["kind"], "-signed" if row["signed"] else "")
+
+
 def make_addr(kind, short):
     A = lib()["address"]
     if kind == "gear":
@@ -359,7 +494,7 @@ def make_image(spec, bankobj):
         return [i & 0xFF for i in range(NLOC)]
     if spec == "default":
         # the library's factory-default image is an INPUT here (unknown locations become holes)
-        if bankobj == "SYN":
+        if bankobj == "SYN" or RM.family_of_key(bankobj) is not None:
             return prng(4242)
         c = list(lib()["banks"][bankobj].factory_default_contents())[:NLOC]
         return c + [None] * (NLOC - len(c))      # (only a starting image for the unit model: padded if it comes short)
@@ -661,7 +796,7 @@ def case_value(case):
 
 def judge_value(job, oc):
     case, w, bus, where, row = job.case, job.w, job.bus, job.where, job.row
-    name = row["cls"]
+    name = signame(row)
     outcome, val, err, early = settle(job, oc)
     if early:
         return early
@@ -829,7 +964,7 @@ def judge_bank(job, oc):
                 if k in expected:
                     r = all_rows()[k]
                     if not accept(tag(got[k]), r, expected[k]):
-                        sig = "C09:read_all-value-mismatch:" + r["cls"]
+                        sig = "C09:read_all-value-mismatch:" + signame(r)
                         if drift:
                             sig = "C09:read_all-not-the-latched-snapshot"
                         out.append((sig, "%s: %s reported as %r; bytes %s[%s], reference decode %r"
@@ -1269,6 +1404,7 @@ def _frame_text(fr):
 
 
 def run_case(case):
+    ensure_family(case)
     if case["kind"] == "value":
         return case_value(case)
     if case["kind"] == "interleaved":
@@ -1743,6 +1879,139 @@ def _shard_hist(arg):
     return res
 
 
+def _shard_family(arg):
+    """The generated family of a program's own declarations, value by value: last accessible location at and right below
+    every location of the value (and 0, 1, 2, 0xfe), single holes, structured images, byte-position boundary patterns /
+    text images, one fault at every read index."""
+    keys, seed, quick = arg
+    res = Result()
+    run = _runner(res)
+    F = load_family(seed)
+    fam = F["fam"]
+    decl_of = {"%s.%s" % (d["bankobj"], d["name"]): d for d in fam["decls"]}
+    for ki, key in enumerate(keys):
+        row = all_rows()[key]
+        if key in F["errors"] or key not in lib()["classes"]:
+            res.count()
+            res.violation("C09:declared-by-program:declaration-refused", {"kind": "value", "key": key, "addr": "gear", "short": 0,
+                                                                         "image": "ff", "last": 0xFE, "holes": [], "lock": 0xFF, "fault": None},
+                          "a legal declaration of the generated family cannot be made: %s" % F["errors"].get(key, "no class"))
+            continue
+        for x in RM.family_features(fam, decl_of[key]):
+            res.label("declared:" + x)
+        locs = row["locs"]
+        j0 = seed * 7 + 11 * ki + row["first"]
+        short = j0 % 64
+        image = ["prng", seed * 131 + 1000 + ki]
+        lasts = sorted({0, 1, 2, 0xFE, min(0xFE, max(locs) + 1)} | set(locs) | {a - 1 for a in locs})
+        for last in lasts:
+            run(_value_case(key, ADDRS[(last + j0) % 3], short, image, last, lock=LOCKS[(last + ki) % 3]), "declared-value:last-sweep")
+        for last in sorted({0xFE, max(locs)}):
+            for h in sorted(set(locs) | {0, 1, 2}):
+                run(_value_case(key, ADDRS[(h + j0) % 3], short, image, last, holes=[h]), "declared-value:single-hole")
+        for ii, img in enumerate(IMAGES + (["prng", seed * 131 + 5000 + ki], ["prng", seed * 131 + 9000 + ki])):
+            run(_value_case(key, ADDRS[(ii + j0) % 3], short, img, 0xFE if ii % 2 else max(locs), lock=LOCKS[ii % 3]),
+                "declared-value:image")
+        if row["kind"] == "string":
+            n = len(locs)
+            for b in TEXT_BYTES:
+                for pos in sorted(set(range(n)) if n <= 4 else {0, 1, n // 2, n - 2, n - 1}) + ["all"]:
+                    for ti, tail in enumerate(("ascii", "high") if b == 0 and pos != "all" else ("ascii",)):
+                        k = (pos if pos != "all" else 1) + b + ti + j0
+                        run(_value_case(key, ADDRS[k % 3], short, ["text", b, pos, tail], 0xFE, lock=LOCKS[k % 3]),
+                            "declared-value:string-image")
+        if row in edge_rows(row["bankobj"]):
+            cnt = edge_count(row)
+            step = 1 if cnt <= 48 or not quick else 3
+            for k in range((seed + ki) % step, cnt, step):
+                j = k + j0
+                run(_value_case(key, ADDRS[j % 3], short, ["edge", k], 0xFE if j % 4 else max(locs), lock=LOCKS[j % 3]),
+                    "declared-value:byte-position-edges")
+        for q in range(len(locs) + 1):
+            for kind in ("silence", "garble"):
+                addr = ADDRS[(q + j0) % 3]
+                run(_value_case(key, addr, short, image, 0xFE, fault=[q, kind]), "declared-value:fault")
+                if len(locs) > 1:
+                    run(_value_case(key, addr, short, image, 0xFE, holes=[locs[(q + ki) % len(locs)]], fault=[q, kind]),
+                        "declared-value:fault+hole")
+    return res
+
+
+def _shard_family_bank(arg):
+    """Whole-bank reads of one bank of the generated family."""
+    bankobj, seed, quick = arg
+    res = Result()
+    run = _runner(res)
+    F = load_family(seed)
+    if bankobj not in lib()["banks"]:
+        res.count()
+        res.violation("C09:declared-by-program:declaration-refused", _bank_case(bankobj, "gear", 0, "ff", 0xFE),
+                      "a bank of the generated family cannot be declared: %s" % F["errors"].get(bankobj))
+        return res
+    spec = bankspec(bankobj)
+    top = spec["last"]
+    declared = sorted({a for r in spec["values"] for a in r["locs"]})
+    image = ["prng", seed * 17 + 300 + spec["bank"]]
+    short = (seed + spec["bank"]) % 64
+    latches = (True, False)
+    res.label("declared-bank:%s%s" % ("lock" if spec["has_lock"] else "no-lock", "+latch" if spec["has_latch"] else ""))
+    lasts = sorted({0, 1, 2, 3, top, min(0xFE, top + 1), 0xFE} | set(declared) | {a - 1 for a in declared})
+    if quick and len(lasts) > 40:
+        keep = {0, 1, 2, 3, top, 0xFE} | {a for r in spec["values"] for a in (r["locs"][0], r["locs"][0] - 1, max(r["locs"]), max(r["locs"]) - 1)}
+        lasts = [x for x in lasts if x in keep or (x + seed) % 3 == 0]
+    for last in lasts:
+        for li, use_latch in enumerate(latches):
+            run(_bank_case(bankobj, ADDRS[(last + li + seed) % 3], short, image, last, lock=LOCKS[(last + li) % len(LOCKS)],
+                           use_latch=use_latch, drift=use_latch), "declared-bank:last-sweep")
+    for h in [0, 1, 2] + declared:
+        for li, use_latch in enumerate(latches):
+            if quick and h > 2 and (h + li + seed) % 2:
+                continue
+            run(_bank_case(bankobj, ADDRS[(h + li) % 3], short, image, top, holes=[h], use_latch=use_latch, drift=use_latch),
+                "declared-bank:single-hole")
+    for ii, img in enumerate(IMAGES):
+        for use_latch in latches:
+            run(_bank_case(bankobj, ADDRS[(ii + seed) % 3], short, img, top, use_latch=use_latch), "declared-bank:image")
+    if string_rows(bankobj):
+        for bi, b in enumerate(TEXT_BYTES):
+            for pi, pos in enumerate((0, 1, -1, "all")):
+                k = bi + pi + seed
+                run(_bank_case(bankobj, ADDRS[k % 3], short, ["text", b, pos, "high" if b == 0 and pos != "all" and k % 2 else "ascii"], top,
+                               use_latch=bool(k & 1), drift=bool(k & 1)), "declared-bank:string-image")
+    cnt = max([edge_count(r) for r in edge_rows(bankobj)] or [0])
+    step = 4 if quick else 1
+    for k in range(seed % step, cnt, step):
+        use_latch = bool((k + seed) & 1)
+        run(_bank_case(bankobj, ADDRS[(k + seed) % 3], short, ["edge", k], top, lock=LOCKS[k % len(LOCKS)], use_latch=use_latch,
+                       drift=use_latch and k % 8 < 4), "declared-bank:byte-position-edges")
+    # a fault at the read of the header and of every declared location (read #0 is location 0x00, read #q location q + 2)
+    qs = [0] + [a - 2 for a in declared if a <= top]
+    if quick and len(qs) > 24:
+        qs = [q for i, q in enumerate(qs) if (i + seed) % 3 == 0 or i < 2]
+    for q in qs:
+        for kind in ("silence", "garble"):
+            for li, use_latch in enumerate(latches):
+                run(_bank_case(bankobj, ADDRS[(q + li) % 3], short, image, top, use_latch=use_latch, drift=use_latch, fault=[q, kind]),
+                    "declared-bank:fault")
+    return res
+
+
+def _shard_family_hyp(arg):
+    seed, fam_seed, n = arg
+    res = Result()
+    F = load_family(fam_seed)
+    keys = [k for k in F["keys"] if k in lib()["classes"]]
+    banks = [b for b in F["banks"] if b in lib()["banks"]]
+    if not keys or not banks:
+        return res
+
+    def classify(case):
+        return ["hyp:declared-by-program:" + case["kind"]] + features(case)
+    hyp.search(value_case_st(keys), run_case, res, n, seed, ID, nontrivial=is_nontrivial, classify=classify)
+    hyp.search(bank_case_st(banks), run_case, res, max(1, n // 4), seed + 1, ID, nontrivial=is_nontrivial, classify=classify)
+    return res
+
+
 def _shard_canon(arg):
     """Deterministic demonstration cases: the only place where a confirmed defect is reported from."""
     res = Result()
@@ -1875,7 +2144,7 @@ def history_case_st(draw, keys_by_bank, banks):
 def _shard_hyp(arg):
     seed, n = arg
     res = Result()
-    keys = sorted(lib()["classes"])
+    keys = [k for k in sorted(lib()["classes"]) if RM.family_of_key(k) is None]     # (the family has a search of its own)
     banks = [b for b in bank_names() if b in lib()["banks"]]
 
     def filtered(case):
@@ -1906,7 +2175,7 @@ def _shard_hyp(arg):
 
 def run(ctx):
     q, s = ctx.quick, ctx.seed
-    keys = sorted(all_rows())
+    keys = [k for k in sorted(all_rows()) if RM.family_of_key(k) is None]
     ctx.pmap(_shard_canon, [0], nproc=1)
     shards = []
     per = 3 if q else 2
@@ -1925,8 +2194,20 @@ def run(ctx):
         shards.append((_shard_hist, (b, s, q)))
     for k in range(16):
         shards.append((_shard_hyp, (s * 1000 + k, 600 if q else 6000)))
+    # a program's own declarations: the generated family of this seed (declared before the workers are forked)
+    F = load_family(s)
+    per = 6 if q else 3
+    for i in range(0, len(F["keys"]), per):
+        shards.append((_shard_family, (F["keys"][i:i + per], s, q)))
+    for b in sorted(RM.family(s)["banks"]):
+        shards.append((_shard_family_bank, (b, s, q)))
+    for k in range(4 if q else 16):
+        shards.append((_shard_family_hyp, (s * 1000 + 500 + k, s, 150 if q else 3000)))
     ctx.pmap(_dispatch, shards)
     ctx.result.exhaustive = False
+    ctx.result.extra["declared_by_program"] = {
+        "family_seed": s, "banks": len(F["banks"]), "values": len(F["keys"]), "declaration_errors": dict(F["errors"]),
+        "features_required_in_every_family": list(RM.FAMILY_FEATURES)}
 
 
 def _dispatch(packed):
